@@ -89,6 +89,13 @@ class CachingMachine(Machine):
                 break
         family = rng.choices(["multilinear", "poly", "sines"], weights=[30, 30, 40])[0]
         func = random_spec(rng, dim, family)
+        # swarm: the whole problem on a stretched coordinate axis (areas of 1e3 ... 1e10 units: wavelengths in pm, densities);
+        # conditioning, curvature * h^2 and every relative tolerance are invariant under it, absolute constants in the code are not
+        xscale = rng.choice([1.0] * 9 + [1e3, 1e6, 1e10])
+        if xscale != 1.0:
+            area = [[a[0] * xscale, a[1] * xscale] for a in area]
+            res = [r * xscale for r in res]
+            func["xscale"] = xscale
         fbmode = rng.choices(["none", "true", "loose", "degenerate"], weights=[45, 25, 20, 10])[0]
         nested = family == "multilinear" and rng.random() < 0.2
         config = {"dim": dim, "area": area, "res": res, "nbe": rng.random() < 0.4, "fbmode": fbmode, "nested": nested,
